@@ -22,6 +22,10 @@ import (
 	"fmt"
 	"strings"
 
+	"github.com/arana-db/parser/ast"
+	"github.com/arana-db/parser/format"
+	"github.com/arana-db/parser/model"
+
 	"seata.apache.org/seata-go/pkg/datasource/sql/exec"
 	"seata.apache.org/seata-go/pkg/datasource/sql/types"
 	"seata.apache.org/seata-go/pkg/util/log"
@@ -197,8 +201,11 @@ func (m *multiExecutor) groupParsersByTableName(parseContext *types.ParseContext
 		if err != nil {
 			return nil, err
 		}
-		// one group per table, however the statements spell it: t, T, `t`, db.t
+		// one group per table, however the statements spell it: t, T, `t`, db.t, t AS a
 		tableName = strings.ToLower(strings.ReplaceAll(tableName, "`", ""))
+		if blank := strings.IndexByte(tableName, ' '); blank >= 0 {
+			tableName = tableName[:blank]
+		}
 		if m.execContext != nil && m.execContext.DBName != "" {
 			tableName = strings.TrimPrefix(tableName, strings.ToLower(m.execContext.DBName)+".")
 		}
@@ -220,4 +227,41 @@ func (m *multiExecutor) groupParsersByTableName(parseContext *types.ParseContext
 	}
 
 	return tableParsers, err
+}
+
+// columnQualifiers takes the table (and database) qualifiers off the column names of an expression and can put
+// them back. The statements of one group are about one table and may name it differently - t, db.t, t AS a -; the
+// image query that joins their conditions names it once.
+type columnQualifiers struct {
+	columns []*ast.ColumnName
+	tables  []model.CIStr
+	schemas []model.CIStr
+}
+
+func (q *columnQualifiers) Enter(n ast.Node) (ast.Node, bool) {
+	if column, ok := n.(*ast.ColumnName); ok && (column.Table.O != "" || column.Schema.O != "") {
+		q.columns = append(q.columns, column)
+		q.tables = append(q.tables, column.Table)
+		q.schemas = append(q.schemas, column.Schema)
+		column.Table, column.Schema = model.CIStr{}, model.CIStr{}
+	}
+	return n, false
+}
+
+func (q *columnQualifiers) Leave(n ast.Node) (ast.Node, bool) {
+	return n, true
+}
+
+func (q *columnQualifiers) putBack() {
+	for i, column := range q.columns {
+		column.Table, column.Schema = q.tables[i], q.schemas[i]
+	}
+}
+
+// restoreUnqualified writes a condition with its column names unqualified
+func restoreUnqualified(where ast.ExprNode, ctx *format.RestoreCtx) error {
+	q := &columnQualifiers{}
+	where.Accept(q)
+	defer q.putBack()
+	return where.Restore(ctx)
 }
